@@ -80,6 +80,9 @@ def run(ctx, out, pid, props, projection, n_quick, n_thorough, pool=None, weight
                 t = cands[ci % len(cands)]
                 case['late'] = [fdesc[0] for fdesc in kgen.TEMPLATES[t]]
                 st['late_feature_cases'] += 1
+        if ci % 6 == 1 and 'render' not in case and 'bounded' not in case:
+            case['bounded'] = True        # many-valued features declared 0..2: bounds are not enforced at run time
+            st['bounded_cases'] += 1
         if ci % 5 == 2 and 'hold' not in case:
             case['hold'] = True           # collection objects obtained once and kept across the whole history
             st['held_collection_cases'] += 1
@@ -163,6 +166,7 @@ def run(ctx, out, pid, props, projection, n_quick, n_thorough, pool=None, weight
         'cases_with_features_attached_at_run_time': st['late_feature_cases'],
         'cases_with_opposites_declared_at_run_time': st['late_opposite_cases'],
         'cases_with_collection_objects_held_across_calls': st['held_collection_cases'],
+        'cases_with_many_valued_features_declared_0_2': st['bounded_cases'],
         'ops_by_kind': dict(ops_by_kind), 'outcomes_by_code': dict(outcomes),
         'templates_used': dict(tmpl_count), 'history_lengths': dict(hist_len),
         'projection_compared': sorted(projection), 'oracles': sorted(props),
